@@ -147,6 +147,7 @@ func TestWorker(t *testing.T) {
 			s.CrashCases = append(s.CrashCases, ViolationRec{Property: p.ID, Sig: v.Sig, Msg: v.Msg, Case: cj, Seed: *fSeed, Tier: tier.String()})
 		}
 		if fail {
+			s.SigCounts[v.Sig]++
 			rec := ViolationRec{Property: p.ID, Sig: v.Sig, Msg: v.Msg, Case: cj, Seed: *fSeed, Tier: tier.String(), Shrunk: shrinking}
 			// keep one record per signature; a later (smaller) case replaces an earlier one
 			replaced := false
